@@ -48,10 +48,12 @@ Example C04_accept_hypotheses_met :
   header_protected Toy.enc_crc (next_header img) = true.
 Proof. exact accept_hypotheses_met. Qed.
 
-(* REFUTED without the protection hypothesis: py7zr's own writer stores no CRC for an encoded
-   (or encrypted) header.  One flipped bit in the packed header stream; start header, next
-   header and member data identical; both images accepted; the member is delivered under a name
-   the original does not have; no collision anywhere. *)
+(* REFUTED without the protection hypothesis: an encoded (or encrypted) header whose CRC is not
+   stored -- what py7zr's own writer produced up to commit f12575e of /repo, and what the reader
+   still has to accept from other writers.  One flipped bit in the packed header stream; start
+   header, next header and member data identical; both images accepted; the member is delivered
+   under a name the original does not have; no collision anywhere.  (Archives of the current
+   writer satisfy the hypothesis: the harness observes "invalid block data" for every such flip.) *)
 Theorem C04_accept_implies_intact_or_collision_refuted :
   exists img img' out out' f d,
     Toy.read true img = Done out /\ Toy.read true img' = Done out' /\
